@@ -174,4 +174,39 @@ Fixpoint run (t : node) (force : bool) (d : data) (ds : list draw) {struct t} : 
       end
   end.
 
+(* ---- the top-level pipeline object (Compose.__call__ with annotation processors) ----
+   `transforms = self.transforms if need_to_run else get_always_apply(self.transforms)`, then for EVERY item of that
+   list -- a transform or a container alike -- `data = t( **data )` followed, when some processor has
+   check_each_transform set, by `_check_data_post_transform`.  The check is recorded as the mark 0 in the trace
+   (leaf identifiers start at 1). *)
+Definition mark (chk : bool) : list nat := if chk then [O] else [].
+
+Definition top_seq (chk : bool) (rk : node -> bool -> data -> list draw -> option state)
+  : list node -> data -> list draw -> option state :=
+  fix go (l : list node) (d : data) (ds : list draw) : option state :=
+    match l with
+    | [] => Some (d, [], ds)
+    | k :: tl => then_ (then_ (rk k false d ds) (fun d1 ds1 => Some (d1, mark chk, ds1))) (go tl)
+    end.
+
+Fixpoint fire_always_top (chk : bool) (ls : list node) (d : data) (ds : list draw) : option state :=
+  match ls with
+  | [] => Some (d, [], ds)
+  | Leaf id _ _ :: r =>
+      match ds with
+      | DU _ :: ds' => then_ (Some (sem id d, id :: mark chk, ds')) (fire_always_top chk r)
+      | _ => None
+      end
+  | _ :: r => None
+  end.
+
+Definition run_top (chk : bool) (p : Q) (kids : list node) (force : bool) (d : data) (ds : list draw) : option state :=
+  let rk := fun k f d ds => run k f d ds in
+  if force then top_seq chk rk kids d ds
+  else match ds with
+       | DU u :: ds' =>
+           if Qltb u p then top_seq chk rk kids d ds' else fire_always_top chk (always_of_list kids) d ds'
+       | _ => None
+       end.
+
 End Run.
